@@ -34,7 +34,7 @@ Proof.
   destruct xp; try (split; reflexivity). destruct xo as [|o rest]; try (split; reflexivity).
   destruct (mu_idle (mw xw) t); try (split; reflexivity).
   unfold xget in Hx.
-  destruct o as [o'|m| | |[m|]]; xn Hx; fr N.
+  destruct o as [o'|m| | |[m|]|m]; xn Hx; fr N.
   unfold push_op. now rewrite get_set_t_other.
 Qed.
 
@@ -81,6 +81,7 @@ Proof.
   - destruct (waiting (mw xw) t && cv_dequeue_store1_guard (b2z (mem_id t (cvq xw)))); [destruct om as [m|]|]; cbn [fst]; xn Hx; fr N.
   - destruct (waiting (mw xw) t); [|destruct om as [m|]]; cbn [fst]; xn Hx; fr N.
   - unfold mu_step. destruct (step (mw xw) t) as [m' e]. cbn [fst] in SF. xnorm. cbn [mw]. destruct (mu_pc_idle m' t); cbn [fst]; xn Hx; rewrite ?lupd_lupd; fr N; exact SF.
+  - cbn [fst]. xn Hx. fr N.
 Qed.
 
 (* ================================================================== *)
@@ -130,7 +131,7 @@ Proof.
     - rewrite xget_lupd_other in Hu by exact Nu. destruct (H0 u k Hu Hb) as (f & Hin & NR). exists f. split; [exact Hin|].
       destruct (Nat.eq_dec f t) as [->|Nf]; [rewrite xget_lupd_same by exact Ht; exact Hn | now rewrite xget_lupd_other]. }
   unfold xget in Hx.
-  destruct o as [o'|m| | |[m|]]; xnorm; rewrite ?Hx; cbn [x_pc x_ops x_rets]; rewrite ?nth_lupd_same by exact Ht; cbn [x_pc x_ops x_rets];
+  destruct o as [o'|m| | |[m|]|m]; xnorm; rewrite ?Hx; cbn [x_pc x_ops x_rets]; rewrite ?nth_lupd_same by exact Ht; cbn [x_pc x_ops x_rets];
     try (apply GEN; reflexivity).
   all: destruct (held (get (mw xw) t)) as [m'|]; [destruct (mode_eqb m m')|]; apply GEN; reflexivity.
 Qed.
@@ -241,6 +242,7 @@ Proof.
   - assert (t < length (xthr xw))%nat as Ht by (apply HtN; discriminate).
     unfold mu_step. destruct (step (mw xw) t) as [m' e]. xnorm. cbn [mw].
     destruct (mu_pc_idle m' t); cbn [fst]; xn Hx; rewrite ?lupd_lupd; kn HK1 H1 Ht Hx'.
+  - assert (t < length (xthr xw))%nat as Ht by (apply HtN; discriminate). cbn [fst]. xn Hx. kn HK1 H1 Ht Hx'.
 Qed.
 End KNatInvariant.
 
